@@ -21,12 +21,29 @@ LEVEL_TEXT.update({
     "C13": "Bounded model checking for crash freedom: every implicit Go run-time check in the code reached from a connection's input (value frames on LOCK/UNLOCK so far; see harness bounds) is an obligation; a feasible panic is replayed natively and must occur at the same source line. 17 crash sites in the value-operation code are recorded findings; a panic at any other site is a violation.",
 })
 
+LEVEL_TEXT.update({
+    "C10": "Bounded model checking of the in-process kernel: a non-leader refuses every client LOCK/UNLOCK with STATE_ERROR and changes nothing (state, counters, log queue), applies the leader's stream identically to the leader, and keeps replicated holds past their deadline. One recorded finding (probable-lock shortcut).",
+})
+
+LEVEL_TEXT.update({
+    "C05": "Bounded model checking: the deadline formula arrival+T+1 is proved for every 16-bit T and unit flag; firing exactly at the tick currentTime = arrival+T+1 (never earlier, hence within [T, T+2s]) is checked by driving the real sweeps second by second for T in 1..12 with grants and late unlocks injected at every tick.",
+    "C06": "Bounded model checking: deadline formula grant+E+1 for every 16-bit E and flag; expiry exactly at the tick grant+E+1 with one EXPRIED, capacity freed and the queued request served, period restart on re-lock, unlimited never ends (E in 1..12 through the real sweeps); update window (ignored only within one unit) for every E1, E2.",
+})
+
+LEVEL_TEXT.update({
+    "C08": "Bounded model checking of the real loader over a file model: for a log of <=3 records with symbolic bytes and every cut offset, loading succeeds and delivers exactly the complete records before the cut, byte for byte; a record appended after the restart is checked on the second restart (recorded finding for cuts inside a record).",
+})
+
 LEVEL_NOTE = {
     "C01": "Trusted: the symgo executor (validated per run by native replay of sampled path witnesses), z3. Schedules: single-threaded critical sections only (no interleaving of two requests inside LockDB.Lock is explored); time values drawn from classes {0,3}/{0,4}; millisecond flags and aof-timing flags fixed in these harnesses.",
     "C02": "Trusted: symgo (validated by native replay of sampled witnesses), z3. Single-threaded critical sections; holder list shapes <=3 (inline queue only); show/update flags excluded here (C06).",
     "C03": "Trusted: symgo, z3. In-memory protocol (MemWaiterServerProtocol) only: the socket write path and text-protocol lockWaiter hand-off are outside; require-ack flag excluded (C11); no interleaving of two threads.",
     "C04": "Trusted: symgo, z3. Queues of <=2 entries (inline representation); ring/priority-ring migration beyond that is covered only by C20. Two recorded findings (known_findings.json).",
     "C17": "Trusted: symgo, z3. One key, one shard; free collectors outside; the drain phase is checked only over the single step.",
+    "C05": "Millisecond-flag timeouts (wall-clock wheel and its goroutines) and waits longer than 12 s in the simulation are outside; larger T are covered only by the symbolic deadline formula plus the long-table sweep exercised at T > 8. One shard, one key.",
+    "C06": "Millisecond-flag expiries, updates that shorten a wheel entry (the 10 s clause) and follower deferral (C10) are outside. One shard, one key.",
+    "C08": "File model: full reads and whole-buffer writes; records without attached values (the value file is empty); real disks, fsync and page-cache reordering are outside. LoadAofFiles is driven directly (not Aof.LoadAndInit).",
+    "C10": "Kernel only: Server.checkProtocol/handle choosing the forwarding wrapper, the TCP connection to the leader, the relay of frames by Transparency*ServerProtocol and the text-protocol relay are outside this check (no sockets in the executor).",
     "C13": "Trusted: symgo, z3. Frames <= 8 bytes; paths that would allocate more than 300 distinct sizes are cut (listed as unsupported in the evidence); text handlers, CALL and the 64-byte header parser are covered by separate harnesses where registered.",
     "C14": "Trusted: symgo, z3. crypto/md5 is an uninterpreted function.",
     "C20": "Trusted: symgo. Programs longer than the bound and constructor parameters above 3 are outside the claim.",
